@@ -274,6 +274,11 @@ def check(c):
     c.floor('C01.forced-satisfy', 'direct prerequisite item stores seen',
             n_set, 3)
     _next_instance(c)
+    # a family in the graph stands for all its members (x => FAM spawns
+    # every member; FAM:succeed-all waits for every member): the member
+    # table of the parser is complete (rules of C15)
+    from rules.C15 import _family_map_rules
+    _family_map_rules(c, 'C01.family-members')
 
 
 def _next_instance(c):
